@@ -54,6 +54,21 @@ Theorem C05_no_loss_no_dup : forall n1 n2 s, (n1 <= n2)%Z ->
 Proof. exact reload_no_loss_no_dup. Qed.
 Print Assumptions C05_no_loss_no_dup.
 
+(* the notices are a map keyed by (user id present and value, type, key) - noticeKey in Go. A reload preserves the MAP KEYS:
+   the reloaded notices carry exactly the keys of the unexpired saved ones, pairwise distinct if they were; and over every op
+   sequence with reloads and prunes anywhere no two notices of the state ever share a key - so an occurrence of
+   (user, type, key) after a reload bumps the existing notice instead of creating a second one, and a public notice and a
+   notice of user 0 with the same type and key stay two notices *)
+Theorem C05_roundtrip_notice_keys : forall n1 n2 s, (n1 <= n2)%Z ->
+  map nkey (s_notices (reload n2 (persist n1 s))) = map nkey (filter (fun n => negb (notice_expired n2 n)) (s_notices s)) /\
+  (keys_unique s -> keys_unique (reload n2 (persist n1 s))).
+Proof. exact roundtrip_notice_keys. Qed.
+Print Assumptions C05_roundtrip_notice_keys.
+
+Theorem C05_notice_keys_unique : forall ops s s' iss befores, run s ops = (s', iss, befores) -> keys_unique s -> keys_unique s'.
+Proof. exact keys_unique_run. Qed.
+Print Assumptions C05_notice_keys_unique.
+
 (* the statement the driver monitors on the implementation (every persisted field equal, waited status up to
    Default = Done, unexpired notices and warnings) holds of the model for every state without null data values *)
 Theorem C05_roundtrip_observable : forall s, state_no_null s -> reload_ok (s, reload 0 (persist 0 s)) = true.
@@ -107,3 +122,12 @@ Example C05_no_null_satisfiable : state_no_null (mkState [(bs "k", bs "1")] [] [
 Proof.
   repeat split; try constructor. intros e [E|[]]. subst e. reflexivity.
 Qed.
+
+(* non-vacuity: the same notice of user 1000 before and after a reload is one notice with two occurrences; the public notice
+   and the notice of user 0 with the same type and key are two *)
+Example C05_notice_keys_example :
+  let ops := [OAddNotice (Some 1000) (nt 1) (bs "1") [] 0%Z None 5%Z; OAddNotice None (nt 1) (bs "1") [] 0%Z None 6%Z;
+              OAddNotice (Some 0) (nt 1) (bs "1") [] 0%Z None 7%Z; OReload 0 0; OAddNotice (Some 1000) (nt 1) (bs "1") [] 0%Z None 8%Z] in
+  let '(s', iss, _) := run empty_state ops in
+  map n_id (s_notices s') = [1; 2; 3] /\ map n_occ (s_notices s') = [2; 1; 1] /\ ids_of_kind 3 iss = [1; 2; 3].
+Proof. vm_compute. repeat split; reflexivity. Qed.
